@@ -27,7 +27,7 @@ def run(idx, rep, tier):
     johnson.r_parallel(idx, rep)
     johnson.r_dottable(idx, rep)
     mink.r_mink(idx, rep, modules=[N1, N2, O], floor=4)
-    loops.r_loop(idx, rep, [N1, N2, O], floor=5)
+    loops.r_loop(idx, rep, [N1, N2, O], floor=3)
     frame.r_frame(idx, rep, e2(idx), modules={N1, N2}, floor=10)      # relative pose oR1 / ot1 of collider 1 in collider 0's frame
     nesterov.r_mainloop(idx, rep)
     misc2.r_dupcond(idx, rep, [m.name for m in idx.lib_modules()], floor=3)
